@@ -2,9 +2,9 @@
 Thm.C04_VM — property C04 (selector matching = CSS semantics), the part about the program and the VM.
 
 All statements are about the definitions the `sel` lane executes (`LolHtml.SelVM`, `LolHtml.Spec.Css`).
-Helper lemmas: Lemmas/SelVM.lean, Lemmas/SelStack.lean.
+Helper lemmas: Lemmas/SelVM.lean, SelStack.lean, SelRefine.lean, SelCompile.lean, SelTrie.lean, SelLeaf.lean.
 -/
-import LolHtml.Lemmas.SelStack
+import LolHtml.Lemmas.SelLeaf
 
 namespace LolHtml.Thm.C04_VM
 open LolHtml LolHtml.Sel LolHtml.SelVM LolHtml.Spec.Css
@@ -113,6 +113,18 @@ theorem C04_counters (program : Program) (esi : Bool) (evs : List Event) (vm' : 
   rw [hsome]
   simp [Stack.new, hn]
 
+/-- For programs compiled from registered selectors the "does not panic" hypothesis is always met. -/
+theorem C04_counters_compiled (sels : List SelList) (esi : Bool) (evs : List Event) (t : StartTag) :
+    ∃ vm' hits, (Vm.new (Ast.ofSelectors sels) esi).runAux evs 0 [] = .ok (vm', hits) ∧
+      let ts : TreeState := evs.foldl (fun s e => s.step esi e) {}
+      let st := (vm'.stack.addChild t.name).buildState t.name
+      st.cumulative = (ts.elemFor t).childIndex ∧
+        ((compile (Ast.ofSelectors sels)).enableNthOfType = true → st.typed = some (ts.elemFor t).typeIndex) := by
+  obtain ⟨hroot, hentry, hnth⟩ := compile_layout (Ast.ofSelectors sels) (ofSelectors_count sels)
+  obtain ⟨r, hr⟩ := SemInv.runAux_total _ _ _ hroot hentry hnth evs
+    (Vm.new (Ast.ofSelectors sels) esi) {} 0 [] rfl (SemInv.init _ esi)
+  exact ⟨r.1, r.2, hr, C04_counters _ esi evs r.1 r.2 hr t⟩
+
 /-- On such histories an end tag never panics (the `open_name_counts` decrement cannot underflow)
     and closes exactly the elements the induced tree closes. -/
 theorem C04_end_tag_total (program : Program) (esi : Bool) (evs : List Event) (vm' : Vm) (hits : List (Nat × Nat))
@@ -146,5 +158,78 @@ theorem C04_not_compound_counterexample :
 /-- The flattening itself. -/
 example : Predicate.ofCompound [.not [[.type bDiv, .cls bFoo]]] =
     { onTagNameExprs := [⟨.localName bDiv, true⟩], onAttrExprs := [⟨.cls bFoo, true⟩] } := by decide
+
+
+/-! ## C04_vm_refines_css, C04_independence -/
+
+/-- `div:not(.foo, #a) > li:first-child` -/
+def selNotList : SelList :=
+  [⟨[.type bDiv, .not [[.cls bFoo], [.id bA]]], [(.child, [.type bLi, .firstChild])]⟩]
+
+/-- The full property, without restriction on `:not()`: **false** on the current tree (finding F3),
+    see `C04_vm_refines_css_statement_false`. -/
+def C04_vm_refines_css_statement : Prop :=
+  ∀ (sels : List SelList) (esi : Bool) (evs : List Event),
+    runSelectors sels esi evs = .ok (Spec.Css.run cssLeaf sels esi evs)
+
+theorem C04_vm_refines_css_statement_false : ¬ C04_vm_refines_css_statement := by
+  intro h
+  have := h [selNotDivFoo] false docDiv
+  rw [C04_not_compound_counterexample.1, C04_not_compound_counterexample.2.1] at this
+  cases this
+
+/-- **VM ⊑ CSS.** For every set of registered selectors whose `:not()` arguments are single plain
+    simple selectors (lists of them allowed; `selsOk`), every ESI setting and every tag-event sequence:
+    the model pipeline (trie with prefix sharing → compiler → stack VM with bail-outs, jumps,
+    de-duplicated hereditary jumps, counters) does not panic and reports, for every start tag, exactly
+    the selectors that match the element under CSS Selectors semantics on the induced tree, in
+    increasing selector order. -/
+theorem C04_vm_refines_css (sels : List SelList) (hok : selsOk sels = true) (esi : Bool) (evs : List Event) :
+    runSelectors sels esi evs = .ok (Spec.Css.run cssLeaf sels esi evs) := by
+  obtain ⟨res, hres⟩ := runSelectors_total sels esi evs
+  rw [hres, runSelectors_eq_css_of_ok sels hok esi evs res hres, codeLeaf_eq_cssLeaf]
+
+/-- The model VM never panics on a compiled program — whatever the selectors (F3 shapes included):
+    no out-of-range instruction address, no missing typed counter, no `open_name_counts` underflow. -/
+theorem C04_vm_never_panics (sels : List SelList) (esi : Bool) (evs : List Event) :
+    ∃ res, runSelectors sels esi evs = .ok res :=
+  runSelectors_total sels esi evs
+
+/-- Without the restriction on `:not()` the VM still computes CSS matching of the *flattened*
+    predicates: partial correctness against the denotation of the compiled program holds for all
+    selectors (`SemInv.runAux`); what fails is only `predB (ofCompound c) = matchesCompound c`. This is the
+    lemma that needs `compoundOk`: -/
+theorem C04_flattening_correct_iff_simple (c : Compound) (hc : compoundOk c = true) (e : Elem) :
+    predB (Predicate.ofCompound c) e = matchesCompound cssLeaf e c := by
+  rw [← codeLeaf_eq_cssLeaf]; exact predB_ofCompound c hc e
+
+/-- **Independence.** The start tags at which a selector hits do not depend on which other selectors
+    are registered, nor on its registration index (selector sets within `selsOk`). -/
+theorem C04_independence (sels sels' : List SelList) (hok : selsOk sels = true) (hok' : selsOk sels' = true)
+    (i j : Nat) (s : SelList) (hi : sels[i]? = some s) (hj : sels'[j]? = some s) (esi : Bool) (evs : List Event) :
+    (runSelectors sels esi evs).map (hitsOf i) = (runSelectors sels' esi evs).map (hitsOf j) := by
+  rw [C04_vm_refines_css sels hok, C04_vm_refines_css sels' hok']
+  simp only [Except.map]
+  rw [spec_independence cssLeaf sels sels' i j s hi hj]
+
+/-- non-vacuity: a selector set inside `selsOk` with a `:not()` list, prefix sharing and both
+    combinators, on a document where it hits -/
+example : selsOk (selNotList :: selsDemo) = true := by decide
+example :
+    runSelectors (selNotList :: selsDemo) false
+      ([.start ⟨bDiv, .html, [⟨bClass, bB⟩], false⟩, .start ⟨bLi, .html, [], false⟩] ++ docDemo) =
+      .ok [(0, 1), (1, 3), (2, 5)] := by decide
+
+/-! ## the leaves (after `fix:` 11ef1d1 and 614f5b5 in /repo) -/
+
+/-- `NthChild::has_index` (difference and remainder in `i64`) decides `∃ n ≥ 0, a·n + b = index`. -/
+theorem C04_nth (a b : Int) (index : Nat) : hasIndex a b index = true ↔ ∃ n : Nat, a * n + b = index := by
+  rw [hasIndex_eq_nthMatches, nthMatches_iff]
+
+/-- The six attribute operator functions compute the CSS operators (`Spec.Css.opMatches`) on every
+    value, operand and case mode. -/
+theorem C04_attr_ops (op : AttrOp) (insensitive : Bool) (actual operand : Bytes) :
+    opMatchesCode op insensitive actual operand = opMatches op insensitive actual operand :=
+  opMatchesCode_eq op insensitive actual operand
 
 end LolHtml.Thm.C04_VM
